@@ -212,9 +212,23 @@ def run(sched):
         rdelay = sched.get("rdelay", 0)
         rgate = bool(sched.get("rgate"))
 
+        class RegistrationOrder(dict):
+            """Stands in for the resource's `set()` of observations with the same interface as far as the
+            resource uses it (add / remove / len / iteration), iterating in registration order: which
+            observer is served first by updated_state() does not depend on object addresses then, so runs
+            are reproducible and comparable with the model (which serves in registration order)."""
+
+            def add(self, x):
+                self[x] = None
+
+            def remove(self, x):
+                del self[x]
+
         class Observed(resource.ObservableResource):
             def __init__(self):
                 super().__init__()
+                if type(self._observations) is set and not self._observations:
+                    self._observations = RegistrationOrder()
                 self.state = 0
                 self.nreg = 0
                 self.byreq = {}      # id(request object) -> (g, request)   (kept alive: ids stay unique)
